@@ -40,7 +40,8 @@ THEOREMS = [
 ]
 RULE = ("designs cat x cat, mr x cat, cat x mr, mr x mr, CA (subvar x cat) slices and cat / mr strands; numeric "
         "values partial / repeated / negative / unsorted / absent, also non-binary decimals (2.2, 0.1) and 1e8 + k magnitudes; surveys unweighted, integer- or dyadic-weighted, "
-        "plus small count tables with many zero cells (exact-50% splits next to zero-count categories) and 10^5-range counts "
+        "categorical-date dimensions; tiny (x 2^-40) and 1 + 2^-20 weights; "
+        "plus small count tables and strands with many zero cells (exact-50% splits next to zero-count categories) and 10^5-range counts "
         "whose median respondent is the last / first of its category; subtotal "
         "(and difference) vectors, explicit order / hide / prune on both dimensions; a case is non-trivial when "
         "at least one vector has >= 2 distinct numeric values among its respondents; distinct = (design, counts) key")
@@ -138,17 +139,35 @@ def _bighalf_vector(rng, values):
     return row
 
 
+def _catk(rng):
+    """categorical, now and then a categorical-DATE variable (categories carrying a "date"): same scale statistics"""
+    return "cat_date" if rng.random() < 0.25 else "cat"
+
+
 def gen_case(rng):
-    typ = rng.choice(["slice"] * 6 + ["table"] * 3 + ["half"] * 3 + ["bighalf"] * 2 + ["strand"] * 3 + ["strand_table"] * 2)
+    typ = rng.choice(["slice"] * 6 + ["table"] * 3 + ["half"] * 3 + ["bighalf"] * 2 + ["strand"] * 3 + ["strand_table"] * 2
+                     + ["strand_half"] * 2)
     numeric = rng.choice(["some"] * 6 + ["all"] * 2 + ["none"])
-    wmode = rng.choice(["unit"] * 4 + ["int"] * 2 + ["dyadic"] * 3)
-    if typ in ("strand", "strand_table"):
-        kind = rng.choice(["cat"] * 6 + ["mr"])
-        v = gen.gen_var(rng, kind, "v0", n=rng.randint(1, 6), numeric=numeric)
+    wmode = rng.choice(["unit"] * 8 + ["int"] * 4 + ["dyadic"] * 6 + ["tiny"] * 2 + ["near1"])
+    if typ in ("strand", "strand_table", "strand_half"):
+        kind = rng.choice([_catk(rng)] * 6 + ["mr"])
+        if typ == "strand_half":
+            kind, numeric = _catk(rng), rng.choice(["all", "all", "some"])
+        v = gen.gen_var(rng, kind, "v0", n=rng.randint(3, 6) if typ == "strand_half" else rng.randint(1, 6), numeric=numeric)
         vars_ = [v]
-        if rng.random() < 0.3:
+        if rng.random() < 0.3 and wmode not in ("tiny", "near1"):
             _exotic_values(rng, vars_)
-        if typ == "strand_table" and kind == "cat":
+        if typ == "strand_half":
+            # exact 50 % split whose upper neighbour(s) in value order have no respondents (the strand twin of F6)
+            ax0 = U.axes_of(vars_)[0]
+            row = _half_vector(rng, ax0.values)
+            sv = [(F(1), [[ax0.pos[e]]]) for e in range(ax0.n) for _ in range(row[e])]
+            miss = [p_ for p_ in range(len(v.cats)) if v.cats[p_]["missing"]]
+            if miss and rng.random() < 0.5:
+                sv.append((F(1), [[rng.choice(miss)]]))
+            rng.shuffle(sv)
+            wmode = rng.choice(["unit", "unit", "unit", "int"])
+        elif typ == "strand_table" and kind != "mr":
             sv = []
             for p in range(len(v.cats)):
                 for _ in range(rng.choice([0, 0, 0, 1, 1, 2, 2, 3, 4])):
@@ -171,13 +190,13 @@ def gen_case(rng):
             o = rng.randrange(2)
             if o:
                 ns.reverse()
-            vars_ = [gen.gen_var(rng, "cat", "v%d" % i, n=ns[i], numeric=numeric) for i in range(2)]
+            vars_ = [gen.gen_var(rng, _catk(rng), "v%d" % i, n=ns[i], numeric=numeric) for i in range(2)]
         elif design == ("ca",):
             vars_ = [gen.gen_var(rng, "ca", "v0", n=rng.randint(1, 3), ncat=rng.randint(1, 5), numeric=numeric)]
         else:
-            vars_ = [gen.gen_var(rng, k, "v%d" % i, n=rng.randint(1, 5), numeric=numeric)
+            vars_ = [gen.gen_var(rng, _catk(rng) if k == "cat" else k, "v%d" % i, n=rng.randint(1, 5), numeric=numeric)
                      for i, k in enumerate(design)]
-        if rng.random() < 0.3:
+        if rng.random() < 0.3 and wmode not in ("tiny", "near1"):
             _exotic_values(rng, vars_)
         axes = U.axes_of(vars_)
         if typ == "bighalf":
@@ -210,6 +229,11 @@ def gen_case(rng):
         sv = [(rng.choice(INT_WEIGHTS), a) for _, a in sv]
     elif wmode == "dyadic":
         sv = [(rng.choice(gen.WEIGHTS), a) for _, a in sv]
+    elif wmode == "tiny":
+        # the whole survey on a tiny (dyadic, exact) scale: every scale statistic but the std-err is scale-free
+        sv = [(rng.choice(gen.WEIGHTS) * gen.TINY, a) for _, a in sv]
+    elif wmode == "near1":
+        sv = [(gen.NEAR1, a) for _, a in sv]
     return {"type": "strand" if typ.startswith("strand") else "slice",
             "vars": [v.to_json() for v in vars_], "survey": gen.survey_to_json(sv),
             "wmode": wmode, "transforms": transforms}
@@ -307,6 +331,20 @@ def oracle(values, resps, int_counts):
                     return v
         med = float(at(n // 2)) if n % 2 else float((at(n // 2 - 1) + at(n // 2)) / 2)
     return {"mean": float(mean), "stddev": math.sqrt(float(var)), "median": med, "sw": float(sw)}
+
+
+def _next_listed_median(values, counts):
+    """what a cumulative-count median gives when, at an exact half, it averages with the next LISTED value"""
+    ps = sorted(((_fq(v), int(c)) for v, c in zip(values, counts) if v is not None), key=lambda p: p[0])
+    total = sum(c for _, c in ps)
+    acc = 0
+    for k, (v, c) in enumerate(ps):
+        acc += c
+        if total and 2 * acc >= total:
+            if 2 * acc == total and k + 1 < len(ps):
+                return float((v + ps[k + 1][0]) / 2)
+            return float(v)
+    return None
 
 
 def _spec_op(values, resps, int_counts):
@@ -469,7 +507,12 @@ def evaluate(case, louts, ctx):
             _cmp(findings, "spec", "strand.scale_std_err", "vs Lean spec", impl["stderr"],
                  U.sout_float(sp["stderr_strand"]))
             if intc:
-                _cmp(findings, "spec", "strand.scale_median", "vs python oracle", impl["median"], orc["median"])
+                mloc = "strand.scale_median"
+                if common.num_close(impl["median"], _next_listed_median(ax.values, plan["counts"])) and \
+                        not common.num_close(impl["median"], orc["median"]):
+                    # the strand twin of F6: averaged with the next LISTED value although nobody chose it
+                    mloc = "strand.scale_median.exact-half-next-value-zero-count"
+                _cmp(findings, "spec", mloc, "vs python oracle", impl["median"], orc["median"])
                 _cmp(findings, "spec", "strand.scale_median", "vs Lean spec", impl["median"],
                      common.model_to_float(sp["median"]))
         # --- model level
